@@ -1147,6 +1147,13 @@ func checkHash(r *Report, p *Prog) {
 				if mc, isCall := msg.(*ssa.Call); isCall && calleeIs(mc, "net/http.StatusText") {
 					okMsg = true
 				}
+				// a package-level text computed once by the package initialiser from a status text or a constant and never
+				// written again (var internalServerErrorText = http.StatusText(500))
+				if ld, isLd := msg.(*ssa.UnOp); isLd && ld.Op == token.MUL {
+					if g, isG := ld.X.(*ssa.Global); isG && constantTextGlobal(p, g) {
+						okMsg = true
+					}
+				}
 				r.Check(okMsg, "C19.hash", fmt.Sprintf("%s: error reply body is a constant status text [%s]", p.FnName(fn), p.InstrPos(in)), p.InstrPos(in), "http.StatusText(...) or a constant", "the error reply body is "+fc.AP(msg)+": error detail (which can quote a stored record, including its password hash) is sent to the client")
 			}
 		}
@@ -1879,4 +1886,40 @@ func hashParamMisuse(p *Prog, fn *ssa.Function, prm *ssa.Parameter, depth int) s
 		}
 	}
 	return ""
+}
+
+// constantTextGlobal: the package-level string variable is assigned exactly once, by its package's initialiser, a
+// constant or the result of http.StatusText, and module code stores to it nowhere else.
+func constantTextGlobal(p *Prog, g *ssa.Global) bool {
+	if g.Pkg == nil || !strings.HasPrefix(g.Pkg.Pkg.Path(), modPath) {
+		return false
+	}
+	n := 0
+	for _, fn := range p.modFns {
+		for _, b := range fn.Blocks {
+			for _, in := range b.Instrs {
+				st, ok := in.(*ssa.Store)
+				if !ok || st.Addr != ssa.Value(g) {
+					continue
+				}
+				if fn.Name() != "init" || fn.Pkg != g.Pkg {
+					return false
+				}
+				n++
+				switch v := st.Val.(type) {
+				case *ssa.Const:
+				case *ssa.Call:
+					if !calleeIs(v, "net/http.StatusText") {
+						return false
+					}
+				default:
+					return false
+				}
+			}
+		}
+	}
+	if _, written := moduleWrittenGlobals(p)[g]; written {
+		return false
+	}
+	return n == 1
 }
